@@ -59,6 +59,15 @@ def job_batch_stream(ctx, key):
     r = rr.by_key(key)
     words = [(0,) + w for w in itertools.product(range(3), repeat=4)]
     hists = [('word=' + ''.join(map(str, w)), history(w)) for w in words] + [(f'long#{k}', long_history(k)) for k in (0, 1)]
+    # histories containing dropout samples (all-zero magnetometer / accelerometer rows): where the batch run accepts the record, streaming must agree
+    for dn, rows_m, rows_a in (('mag-dropout', (7, 20, 21), ()), ('acc-dropout', (), (9, 30)), ('both', (12,), (12, 25))):
+        g_, a_, m_ = long_history(0)
+        a_ = a_.copy(); m_ = m_.copy()
+        for t in rows_m:
+            m_[t] = 0.0
+        for t in rows_a:
+            a_[t] = 0.0
+        hists.append((f'long#0+{dn}', (g_, a_, m_)))
     for ci, cfg in enumerate(r.cfgs):
         for hn, (g, a, m) in hists:
             kk = f'filter={key} cfg#{ci} {hn}'
@@ -69,9 +78,19 @@ def job_batch_stream(ctx, key):
                 b2 = r.output(r.batch(g, a, m, cfg))
                 _seed(r)
                 b3 = r.output(r.batch(g, a, m, cfg))
+            except ValueError as ex:
+                if 'dropout' in hn or hn.endswith('+both'):
+                    ctx.cls('dropout-history:batch refuses')       # a refusal of a record with null samples is C13's business
+                    continue
+                ctx.evals += 1
+                ctx.fail(f'{key}: batch run raises', kk, f'{type(ex).__name__}: {ex}'[:200], 'N attitudes')
+                continue
             except Exception as ex:
                 ctx.evals += 1
                 ctx.fail(f'{key}: batch run raises', kk, f'{type(ex).__name__}: {ex}'[:200], 'N attitudes')
+                continue
+            if ('dropout' in hn or hn.endswith('+both')) and not np.all(np.isfinite(b1)):
+                ctx.cls('dropout-history:batch not finite')
                 continue
             ctx.expect(b1.tobytes() == b2.tobytes() == b3.tobytes() and b1.shape[0] == len(g), f'{key}: three batch runs are bit-identical', kk, None, 'identical bytes')
             ctx.cls('repeat')
@@ -208,18 +227,18 @@ def _variants(r):
     elif c == 'Mahony':
         V = [dict(k_P=2.0), dict(k_I=0.1), dict(frequency=50.0), dict(b0=np.array([0.01, -0.02, 0.005])), dict(Dt=0.02)]
     elif c == 'EKF':
-        V = [dict(frequency=50.0), dict(noises=[0.1**2, 0.3**2, 0.5**2]), dict(P=np.identity(4) * 0.5), dict(var_acc=0.2), dict(var_gyr=0.05), dict(Dt=0.02)]
+        V = [dict(frequency=50.0), dict(noises=[0.1**2, 0.3**2, 0.5**2]), dict(P=np.identity(4) * 0.5), dict(var_acc=0.2), dict(var_gyr=0.05), dict(Dt=0.02), dict(Dt=0.02, frequency=25.0)]
         if r.has_mag:
             V += [dict(magnetic_ref=40.0), dict(var_mag=0.3), dict(magnetic_ref=np.array([0.5, 0.1, 0.8]))]
     elif c == 'UKF':
         V = [dict(alpha=1e-2), dict(beta=0.0), dict(kappa=1.0), dict(frequency=50.0), dict(P=np.eye(4) * 0.02), dict(process_noise_covariance=np.eye(4) * 1e-3),
-             dict(measurement_noise_covariance=np.eye(3) * 0.1), dict(beta=0.0, P=np.eye(4) * 0.02)]
+             dict(measurement_noise_covariance=np.eye(3) * 0.1), dict(beta=0.0, P=np.eye(4) * 0.02), dict(Dt=0.02)]
     elif c == 'AQUA':
-        V = [dict(alpha=0.05), dict(beta=0.05), dict(threshold=0.5), dict(adaptive=True), dict(frequency=50.0), dict(adaptive=True, threshold=0.5)]
+        V = [dict(alpha=0.05), dict(beta=0.05), dict(threshold=0.5), dict(adaptive=True), dict(frequency=50.0), dict(adaptive=True, threshold=0.5), dict(Dt=0.02)]
     elif c == 'Fourati':
-        V = [dict(gain=0.5), dict(magnetic_dip=30.0), dict(frequency=50.0)]
+        V = [dict(gain=0.5), dict(magnetic_dip=30.0), dict(frequency=50.0), dict(Dt=0.02), dict(Dt=0.02, frequency=25.0)]
     elif c == 'ROLEQ':
-        V = [dict(weights=np.array([1.0, 2.0])), dict(magnetic_ref=30.0), dict(frequency=50.0), dict(magnetic_ref=np.array([0.5, 0.1, 0.8]))]
+        V = [dict(weights=np.array([1.0, 2.0])), dict(magnetic_ref=30.0), dict(frequency=50.0), dict(magnetic_ref=np.array([0.5, 0.1, 0.8])), dict(Dt=0.02)]
     elif c == 'AngularRate':
         V = [dict(frequency=50.0), dict(Dt=0.02)] + ([dict(order=2), dict(order=4)] if r.arch == 'series' else [])
     elif c == 'FKF':
@@ -265,6 +284,21 @@ def job_param_pairs(ctx, key):
             pairs.append((dict(frame='ENU'), dict(frame='NED'), 'frame(default reference, ENU first)'))
     for A0, B0, vname in pairs:
         kk = f'filter={key} varied={vname}'
+        if r.step_fn is not None:
+            # batch = stream under the varied configuration too (an option honoured by one path and ignored by the other shows here)
+            g_, a_, m_ = history((0, 1, 2, 1, 0, 2, 2, 1))
+            try:
+                np.random.seed(12345)
+                bq = r.output(r.batch(g_, a_, m_, B0))
+                inst = r.fresh(B0)
+                q = bq[0].copy(); rows = [q.copy()]
+                for t in range(1, len(g_)):
+                    q = r.step(inst, q, g_[t], a_[t], m_[t] if r.has_mag else None)
+                    rows.append(np.array(q, float))
+                ctx.close(np.array(rows), bq, 1e-12, f'{key}: batch = stream', kk + ' word=01210221')
+            except Exception as ex:
+                ctx.evals += 1
+                ctx.fail(f'{key}: batch/stream run raises', kk, f'{type(ex).__name__}: {ex}'[:200], 'completes')
         try:
             solo_a = core.in_fresh_child(_run_cfg, key, A0)
             solo_b = core.in_fresh_child(_run_cfg, key, B0)
